@@ -307,6 +307,8 @@ def main(tier, seed):
         evals += 1
         # the same file without its comments must read and write back: otherwise the file, not the reader, is at fault
         ctl_data = (HDR + KNOWN_CONTROL[sig] + END).encode() if sig in KNOWN_CONTROL else re.sub(rb"/\*.*?\*/", b"", data, flags=re.S)
+        if sig == "user_defined_header_entity":
+            ctl_data = re.sub(rb"(?m)^![^\n]*\n", b"", data)         # the same file without the user-defined entity
         ctl = judge(hfile, wdir, ctl_data, None)
         if ctl:
             res.violation("GENERATOR BUG: the control of the file kept for the open finding %s (the same file without the construct in question) fails too: %s" % (sig, ctl), {}, found_input=False)
